@@ -178,6 +178,17 @@ def tolerance_tests(prog, rep):
             rep.ob("R1", "%s: the quantity accepted as below the tolerance in `%s` is a magnitude" % (f.qualname, T(mod, c)[:60]), is_abs or is_width, f.site(c),
                    ("definite: `%s` is a signed quantity: every point with a negative residual counts as converged" % T(mod, small)[:60]) if not (is_abs or is_width) else "", key="typestate/tolerance/%s/%s" % (f.name, T(mod, big)[:40]))
     rep.floor("R1.tolerance-tests", n, 4)
+    # the integrating method has no tolerance test of its own (documented: it does not respect atol)
+    # and always returns the end point of the integration along grad psi; handing the input back
+    # would leave the decision to the Newton stage, which moves points along the contour
+    g = mod.funcs.get("PsiContour.refinePointIntegrate")
+    if g is None:
+        raise AnalysisError("PsiContour.refinePointIntegrate not found")
+    pname = [a.arg for a in g.node.args.args if a.arg != "self"][0]
+    rets = [r for r in walk_own(g.node) if isinstance(r, ast.Return)]
+    raw = [r for r in rets if isinstance(r.value, ast.Name) and r.value.id == pname]
+    rep.ob("R1", "refinePointIntegrate returns the integrated position on every path (never its input point)", bool(rets) and not raw, g.site(raw[0]) if raw else g.site(),
+           ("definite: `return %s` at line %d hands the unrefined point on" % (pname, raw[0].lineno)) if raw else "", key="typestate/refinePointIntegrate/exits")
 
 
 def refine_point_exits(prog, rep):
